@@ -62,7 +62,8 @@ def run_model(name, export=False, timeout=3000, with_parse=False):
 CP_CONFIGS = {
     # name: (MaxLen, MaxRegs, MaxDepth, Alphabet, Palette ids, MaxTotalLen)
     'cp_quick': (3, 2, 2, [97], [3, 4], 4),          # 26 k transitions, ~8 s
-    'cp_deep': (3, 2, 3, [97], [3, 4], 4),           # 2.7 M transitions, ~3 min on 16 workers
+    'cp_deep': (3, 2, 3, [97], [3, 4], 4),           # 4.8 M transitions, ~3 min on 16 workers
+    'cp_wide': (2, 2, 2, [97, 98], [1, 3, 4], 4),    # two letters, three settings; with the parse actions 2.1 M transitions, ~2 min
 }
 
 
@@ -199,12 +200,14 @@ def run_for(prop, tier, seed=1):
         return ([run_model('deep')] if tier == 'thorough' else []) + [cp] + sim
     if prop == 'C12':
         return [run_model('small' if tier == 'thorough' else 'quick'), run_cp('cp_deep' if tier == 'thorough' else 'cp_quick')]
+    if prop in ('C11', 'C17'):
+        return [run_cp('cp_wide' if tier == 'thorough' else 'cp_quick')]
     if prop not in ('C01', 'C02', 'C03', 'C15'):
         return []
     name = 'small' if tier == 'thorough' else 'quick'
     runs = [run_model(name, with_parse=prop in ('C02', 'C03'))]
     if prop in ('C01', 'C02', 'C03'):
-        runs.append(run_cp('cp_quick', with_parse=prop in ('C02', 'C03')))
+        runs.append(run_cp('cp_wide' if tier == 'thorough' else 'cp_quick', with_parse=prop in ('C02', 'C03')))
     return runs
 
 
